@@ -107,7 +107,10 @@ LegView(atoms) ==
 \*   jver, juser, jhost : the declared client version / user / host of that object
 \*   conn.ipc : v4 / v6 / notip / unknown   (class of the first field, where known to the driver by construction)
 \*   conn.strict : the first field is a textual IPv4 / IPv6 address WITHOUT zone, by an independent validator
-\*   argv.toks : every argument split on single spaces; clean = no empty token
+\*   conn.first / strict read "field" as delimited by single spaces, conn.firstf / strictf as delimited by any run
+\*   of white space (the statement does not say which blanks delimit fields: both readings are accepted)
+\*   argv.toks : every argument split on single spaces (empty tokens kept); clean = no empty token
+\*   argv.ftoks : every argument split on runs of white space (the other legitimate tokenisation)
 R14(ok, pan, ln, ip, pol, hd, ma, mi, u, h, tidc) ==
   [ok |-> ok, pan |-> pan, logname |-> ln, ip |-> ip, pol |-> pol, handler |-> hd, vmaj |-> ma, vmin |-> mi,
    requser |-> u, reqhost |-> h, tidc |-> tidc]
@@ -129,17 +132,17 @@ LegMatch(c, r)  == LET toks == Tokens(c.atoms)
                    /\ \E i \in RI : NumAt(toks[i].v) # {} /\ r.requser \o "40" \o r.reqhost = Cat(toks[i].v)
                    /\ \/ \E i \in VI : LET v == VerOf(toks[i].v) IN v.cls = "ab" /\ r.vmaj = v.maj /\ r.vmin = v.min
                       \/ r.vmaj = 0 /\ r.vmin = 0 /\ (VI = {} \/ \E i \in VI : toks[i].v = <<>>)
-PolicyFromCommand(av, r) ==
-  LET n == Len(av.toks) IN
-  /\ n >= 2
-  /\ IF av.clean THEN r.pol = av.toks[n - 1] /\ r.handler = av.toks[n]
-     ELSE r.pol \in S(av.toks) /\ r.handler \in S(av.toks)
+\* policy = second-last token and handler = last token, under one of the two tokenisations (how many tokens a force
+\* command may have is not part of the statement)
+TailIs(ts, r) == LET n == Len(ts) IN n >= 2 /\ r.pol = ts[n - 1] /\ r.handler = ts[n]
+PolicyFromCommand(av, r) == TailIs(av.toks, r) \/ TailIs(av.ftoks, r)
 
 C14_Call(e) == LET r == e.res IN
   /\ ~r.pan                                              \* never crashes
   /\ r.ok =>
        /\ r.logname = e.log /\ e.log # ""               \* the non-empty server-provided login name
-       /\ r.ip = e.conn.first /\ e.conn.strict /\ e.conn.ipc # "notip"   \* exactly the first field, and that is a valid IP
+       /\ \/ r.ip = e.conn.first /\ e.conn.strict                       \* exactly the first field, and that is a valid IP
+          \/ r.ip = e.conn.firstf /\ e.conn.strictf
        /\ r.pol \in {H_NONS, H_NSOK} /\ PolicyFromCommand(e.argv, r)
        /\ TidOK(r.tidc)
        /\ (JsonMatch(e.cmd, r) \/ LegMatch(e.cmd, r))
@@ -347,7 +350,7 @@ Cmd14(c) ==
        [] c.cmd = "leg_req2at"   -> J("invalid", FALSE, NoV, "", "", pre \o vv \o <<Sp>> \o ReqAtoms(c) \o <<At, Txt("78")>>)
        [] c.cmd = "empty"        -> J("invalid", FALSE, NoV, "", "", <<>>)
        [] OTHER                  -> J("invalid", FALSE, NoV, "", "", <<Txt("ff7b00")>>)
-Conn14(c) == LET C(f, ipc) == [first |-> f, ipc |-> ipc, strict |-> ipc \in {"v4", "v6"}] IN
+Conn14(c) == LET C(f, ipc) == [first |-> f, ipc |-> ipc, strict |-> ipc \in {"v4", "v6"}, firstf |-> f, strictf |-> ipc \in {"v4", "v6"}] IN
              CASE c.conn \in {"v4", "v4v4"} -> C("3139322e302e322e37", "v4")
                [] c.conn = "v6"         -> C("323030313a6462383a3a37", "v6")
                [] c.conn = "mapped"     -> C("3a3a666666663a312e322e332e34", "v6")                 \* ::ffff:1.2.3.4
@@ -363,7 +366,9 @@ PolHex(p) == IF p = "NONS" THEN H_NONS ELSE IF p = "NSOK" THEN H_NSOK ELSE "5858
 Fill == <<"67656e7369676e", "2d63", "2f7573722f62696e2f67656e7369676e", "2d2d666c6167", "61", "62", "63", "64", "65">>
 Argv14(c) == [toks |-> [i \in 1..c.ntok |-> IF i = c.ntok THEN (IF c.hnd = "NSOK" THEN H_NSOK ELSE "68616e646c6572")
                                               ELSE IF i = c.ntok - 1 THEN PolHex(c.pol) ELSE Fill[i]],
-              clean |-> TRUE]
+              clean |-> TRUE,
+              ftoks |-> [i \in 1..c.ntok |-> IF i = c.ntok THEN (IF c.hnd = "NSOK" THEN H_NSOK ELSE "68616e646c6572")
+                                              ELSE IF i = c.ntok - 1 THEN PolHex(c.pol) ELSE Fill[i]]]
 Ev14(c) == LET e == [op |-> "reqparam", cmd |-> Cmd14(c), log |-> IF c.log = "set" THEN H_alice ELSE "",
                      conn |-> Conn14(c), argv |-> Argv14(c), xok |-> "na", res |-> Fail14]
                d == Design14(e)
